@@ -92,6 +92,7 @@ type Explorer struct {
 	decls   map[string]int // name -> width (0 = not declared)
 	declOrd []string
 	known   map[string]bool
+	chosen  map[string]int64
 	nfun    int
 	obs     []obsEntry
 	cover   map[string]bool
@@ -535,6 +536,40 @@ func (e *Explorer) Concretize(x Sym) uint64 {
 	}
 }
 
+// ChooseValue forks over the feasible values of x in [lo, hi] all at once
+// (one pending prefix per value), so that the alternatives can be explored in
+// parallel.  Token structure is the same as Concretize's: "v<k>" then "1".
+func (e *Explorer) ChooseValue(x Sym, lo, hi int64) int64 {
+	if k, ok := e.chosen[x.T]; ok {
+		return k
+	}
+	if e.pos < len(e.prefix) {
+		k := int64(e.Concretize(x))
+		e.chosen[x.T] = k
+		return k
+	}
+	e.Concretized++
+	var feas []int64
+	for k := lo; k <= hi; k++ {
+		if e.check(fmt.Sprintf("(= %s %s)", x.T, bv(uint64(k), x.W))) {
+			feas = append(feas, k)
+		}
+	}
+	if len(feas) == 0 {
+		panic(abortPath{KAssume, "path condition became infeasible"})
+	}
+	for i := len(feas) - 1; i >= 1; i-- {
+		alt := append(append([]string(nil), e.trail...), "v"+strconv.FormatUint(uint64(feas[i]), 10), "1")
+		e.pending = append(e.pending, alt)
+	}
+	k := feas[0]
+	e.chosen[x.T] = k
+	e.pos += 2
+	e.trail = append(e.trail, "v"+strconv.FormatUint(uint64(k), 10), "1")
+	e.assert(fmt.Sprintf("(= %s %s)", x.T, bv(uint64(k), x.W)), true)
+	return k
+}
+
 func (e *Explorer) declare(name string, w int) {
 	if e.decls[name] == 0 {
 		e.decls[name] = w
@@ -639,6 +674,7 @@ func (e *Explorer) RunPrefix(j *Job, prefix []string, concrete map[string]uint64
 	e.decls = map[string]int{}
 	e.declOrd = nil
 	e.known = map[string]bool{}
+	e.chosen = map[string]int64{}
 	e.obs = nil
 	e.cover = map[string]bool{}
 	e.curRes = nil
